@@ -294,6 +294,16 @@ func checkPrng(v *ev.Verdict, c PrngCase) {
 		}
 		ref = ref[:c.Total]
 		ra, rb := prng.BuildSeededReader(c.Seed...), prng.BuildSeededReader(seed2...)
+		// the caller reuses its seed buffers after construction: the stream is defined by the
+		// seed data given to the constructor, not by what the buffers hold at the first Read
+		for i := range seed2 {
+			for k := range seed2[i] {
+				seed2[i][k] ^= 0xa5
+			}
+			if i > 0 {
+				seed2[i] = nil
+			}
+		}
 		a, err := readChunked(ra, c.Total, c.ChunkA)
 		if err != nil {
 			v.Add(P, "prng:read-error", "reader A: %v", err)
@@ -407,6 +417,64 @@ func checkPrngPar(v *ev.Verdict, c PrngParCase) {
 		v.SetNT(P)
 		v.Class("prng-concurrent-construction")
 	}
+}
+
+// PrefixParCase: goroutines call Prefix / TrimPrefix on their own arguments at the same time.
+type PrefixParCase struct {
+	Sets [][]string `json:"sets"`
+	G    int        `json:"g"`
+	R    int        `json:"r"`
+}
+
+func genPrefixPar(t *rapid.T) PrefixParCase {
+	set := rapid.Custom(func(t *rapid.T) []string {
+		pre := rapid.StringN(0, 40, 60).Draw(t, "pre")
+		n := rapid.IntRange(2, 4).Draw(t, "n")
+		var out []string
+		for i := 0; i < n; i++ {
+			out = append(out, pre+fmt.Sprintf("%d", i)+rapid.StringN(0, 8, 16).Draw(t, "suf"))
+		}
+		return out
+	})
+	return PrefixParCase{
+		Sets: rapid.SliceOfN(set, 2, 4).Draw(t, "sets"),
+		G:    rapid.IntRange(2, 12).Draw(t, "g"),
+		R:    rapid.SampledFrom([]int{20, 100, 400}).Draw(t, "r"),
+	}
+}
+
+func checkPrefixPar(v *ev.Verdict, c PrefixParCase) {
+	guard(v, "prefix:panic", func() {
+		want := make([]string, len(c.Sets))
+		for i, st := range c.Sets {
+			want[i] = naiveLCP(st)
+		}
+		var wg sync.WaitGroup
+		var bad atomic.Int64
+		for g := 0; g < c.G; g++ {
+			wg.Add(1)
+			go func() {
+				defer wg.Done()
+				for r := 0; r < c.R && bad.Load() == 0; r++ {
+					i := (g + r) % len(c.Sets)
+					if commonprefix.Prefix(c.Sets[i]...) != want[i] {
+						bad.Store(int64(i) + 1)
+						return
+					}
+				}
+			}()
+		}
+		wg.Wait()
+		if b := bad.Load(); b != 0 {
+			v.Add(P, "prefix:not-longest-common-prefix", "Prefix of argument set %d differs from the byte-wise longest common prefix while %d goroutines call Prefix concurrently on their own arguments", b-1, c.G)
+		}
+	})
+	v.SetNT(P)
+	v.Class("prefix-concurrent-callers")
+}
+
+func TestC19PrefixPar(t *testing.T) {
+	drive(t, "2..4 argument sets with long common prefixes, 2..12 goroutines each calling Prefix 20..400 times on them in parallel; oracle: every result equals the byte-wise longest common prefix computed beforehand; non-trivial always; distinct by input", genPrefixPar, checkPrefixPar)
 }
 
 func TestC19PrngPar(t *testing.T) {
